@@ -36,15 +36,21 @@ def decorate(rng, v):
         v["aci"] = rng.choice([0, 1])           # consumed by EnumString only; every other derive must ignore it
     if rng.random() < 0.15:
         v["xattrs"] = ["#[allow(dead_code)]"]    # a non-strum attribute next to the strum ones
+    # string VALUES whose text reads like a keyword: an attribute's text is not its structure
+    r = rng.random()
+    if r < 0.1:
+        v["ser"] = [[ord(c) for c in rng.choice(["disabled", "default", "transparent, disabled"])]]
+    elif r < 0.18:
+        v["msg"] = [[ord(c) for c in "not disabled, default"]]
     # attributes of EnumString on payload variants: `default` (single String field) and default_with - every other derive
     # ignores them (a default variant can still be disabled; payloads stay Default::default())
     if v["kind"] == "tuple" and len(v["fields"]) == 1 and v["fields"][0]["ty"] == "String" and rng.random() < 0.5:
         v["def"] = True
-    elif v["kind"] == "tuple" and len(v["fields"]) == 1 and v["fields"][0]["ty"] in ("u8", "i32", "bool", "String", "opt") and rng.random() < 0.4:
+    elif v["kind"] == "tuple" and len(v["fields"]) == 1 and v["fields"][0]["ty"] in ("u8", "i32", "bool", "String", "opt", "tricky") and rng.random() < 0.4:
         v["dwith"] = D.TYPES[v["fields"][0]["ty"]][4]
     elif v["kind"] == "named" and rng.random() < 0.4:
         for f in v["fields"]:
-            if f["ty"] in ("u8", "i32", "bool", "String", "opt"):
+            if f["ty"] in ("u8", "i32", "bool", "String", "opt", "tricky"):
                 f["dw"] = D.TYPES[f["ty"]][4]
     if v["dis"] and rng.random() < 0.4 and not v["def"] and not v.get("dwith"):
         split_disabled(rng, v)
